@@ -248,6 +248,22 @@ Proof.
     destruct (key_eqb_spec (KTok2z dk) k) as [<-|]; reflexivity.
 Qed.
 
+(* both branches in one statement *)
+Theorem rd_sweep_full_spec cx W W' : rd_sweep cx W = Ok W' ->
+  exists c dk d tail jk j rest, sweep_common cx W c dk d tail jk j rest /\
+    (d_total_debt d - d_uncollectible d = 0 ->
+       now W' = now W /\
+       forall k, get W' k = if key_eqb k jk then (get W jk) <| data := DJournal (sw_journal0 j) |>
+                            else if key_eqb k dk then (get W dk) <| data := DDist (sw_dist1 d) tail |> else get W k) /\
+    (d_total_debt d - d_uncollectible d <> 0 ->
+       exists z cfg st fills W2 W3 s t,
+         sweep_facts cx W W' c dk d tail jk j (d_total_debt d - d_uncollectible d) z cfg st fills W2 W3 s t).
+Proof.
+  intros H. destruct (rd_sweep_zero_spec _ _ _ H) as (c & dk & d & tail & jk & j & rest & C & Z).
+  exists c, dk, d, tail, jk, j, rest. split; [exact C|]. split; [exact Z|]. intros Hnz.
+  exact (rd_sweep_spec _ _ _ H _ _ _ _ _ _ _ C Hnz).
+Qed.
+
 (* the mock swap program (ring registry): everything explicit in terms of the pre-state *)
 Theorem rd_sweep_mock_spec cx W W' c dk d tail jk j debt z cfg st fills W2 W3 s t :
   sweep_facts cx W W' c dk d tail jk j debt z cfg st fills W2 W3 s t -> c_swap_program c = KSwapMock ->
@@ -394,3 +410,48 @@ Example rd_sweep_nonvacuous :
      data (get W' (KRdDist 5)) = DDist (sw_dist1 d0) [0] /\ data (get W' KRdJournal) = DJournal (sw_journal0 ex_sweep_journal) /\
      get W' (KTok2z (KRdDist 5)) = ex_tok (KRdDist 5) 10 /\ get W' (KUser 9) = get (ex_sweep_world d0) (KUser 9)).
 Proof. split; [|cbv zeta]; eexists; (split; [vm_compute; reflexivity|]); vm_compute; repeat split. Qed.
+
+(* ------------------------------------------------------------------------------------------------ aliasing caveats
+   Two readings of the property texts are FALSE of the model for degenerate account choices; the pointwise
+   specifications above are exact, these witnesses only show that the side conditions in the corollaries are needed. *)
+
+(* C06 "the withdrawal moves exactly the requested lamports": not when the swap program names the journal itself as the
+   destination - the books are debited, no lamport moves (withdraw_sol_dest_after needs dest <> jk). *)
+Example withdraw_sol_to_journal_moves_nothing_refuted :
+  let cx := {| cx_prog := KRd; cx_height := 2;
+               cx_metas := [mk KRdConfig false false; mk (KWithdrawAuth KSwapMock) true false; mk KRdJournal false true; mk KRdJournal false true];
+               cx_sibling := Some {| sb_prog := KToken; sb_kind := SibTransferChecked 55;
+                                     sb_accounts := [KUser 4; KMint; KTok2z KRdSwapAuth; KUser 4] |} |} in
+  let W := ex_world [(KRdConfig, ex_acct (rent LEN_CONFIG_ALLOC) LEN_CONFIG_ALLOC (DConfig ex_cfg));
+                     (KRdJournal, ex_acct (rent LEN_CONFIG_ALLOC + 900) LEN_CONFIG_ALLOC (DJournal ex_journal))] in
+  exists W', rd_withdraw_sol cx W 300 = Ok W' /\
+    (forall k, lamports (get W' k) = lamports (get W k)) /\
+    data (get W' KRdJournal) = DJournal (ws_journal ex_journal 300 55) /\ j_total_sol (ws_journal ex_journal 300 55) = 600.
+Proof.
+  eexists. split; [vm_compute; reflexivity|]. split; [|vm_compute; auto].
+  intros k. destruct (key_eqb_spec k KRdConfig) as [->|N1]; [reflexivity|].
+  destruct (key_eqb_spec k KRdJournal) as [->|N2]; [reflexivity|].
+  unfold get. cbn. rewrite (key_eqb_neq k KRdConfig), (key_eqb_neq k KRdJournal) by assumption. reflexivity.
+Qed.
+
+(* C05 "debiting the tracked swap-destination balance and the real swap-destination account equally": not in a world
+   where a Distribution-typed account sits at the swap-authority PDA (the processor does not re-derive the distribution
+   key; no instruction creates such an account): custody account = swap destination, the transfer is a no-op, the books
+   still move (rd_sweep_mock_amounts needs dk <> KRdSwapAuth). *)
+Example sweep_distribution_at_swap_authority_refuted :
+  let d := ex_dist5s in
+  let W := ex_world [
+    (KRdConfig, ex_acct (rent LEN_CONFIG_ALLOC) LEN_CONFIG_ALLOC (DConfig ex_cfg));
+    (KRdSwapAuth, ex_acct (rent (LEN_DIST + 1)) (LEN_DIST + 1) (DDist d [0]));
+    (KRdJournal, ex_acct (rent LEN_CONFIG_ALLOC + 900) LEN_CONFIG_ALLOC (DJournal ex_sweep_journal));
+    (KUser 9, {| lamports := 1; owner := KSwapMock; alen := LEN_FILLS; data := DFills ex_ring |});
+    (KTok2z KRdSwapAuth, ex_tok KRdSwapAuth 9000)] in
+  let cx := ex_cx KRd [mk KRdConfig false false; mk KRdSwapAuth false true; mk KRdJournal false true;
+    mk KSwapCfg false false; mk KSwapState false false; mk (KUser 9) false true; mk KSwapMock false false;
+    mk (KTok2z KRdSwapAuth) false true; mk KRdSwapAuth false false; mk (KTok2z KRdSwapAuth) false true; mk KToken false false] in
+  exists W', rd_sweep cx W = Ok W' /\
+    data (get W' KRdSwapAuth) = DDist (sw_dist2 d 5000) [0] /\
+    data (get W' KRdJournal) = DJournal (sw_journal2 ex_sweep_journal 800 5000) /\
+    j_swap_dest_balance (sw_journal2 ex_sweep_journal 800 5000) = 4000 /\
+    get W' (KTok2z KRdSwapAuth) = ex_tok KRdSwapAuth 9000.
+Proof. eexists. split; [vm_compute; reflexivity|]. vm_compute. repeat split. Qed.
